@@ -81,6 +81,10 @@ contract("ResultsSummary.get_successful_result", file=F, params=[("self", "Ref[R
          ensures=["job_name in RS_RES(self) and result == RS_RES(self)[job_name] and R_SUCC(result)"],
          raises={"InvalidParameter": {"when": ["job_name not in RS_RES(self)"], "iff": True, "frame": True},
                  "ExecutionError": {"when": ["job_name in RS_RES(self) and not R_SUCC(RS_RES(self)[job_name])"], "iff": True, "frame": True}})
-# get_successful_results / get_failed_results / get_canceled_results are filtered comprehensions that call x.is_*() - a call to a
-# non-pure contract inside a comprehension is outside the supported subset (undecided, not under contract); get_results_by_type, the
-# function resubmission uses, makes the same classification with an explicit loop and is verified above.
+# filtered comprehensions over the stored rows: the classifier calls inside the comprehension are applied through the (verified, pure,
+# total) contracts of Result.is_*, generalised over the bound element
+_ONE_CLASS = ("forall(k, range(len(result)), exists(x, keys(RS_RES(self)), RS_RES(self)[x] == result[k]) and {P}(result[k]))"
+              " and forall(x, keys(RS_RES(self)), implies({P}(RS_RES(self)[x]), exists(k, range(len(result)), result[k] == RS_RES(self)[x])))")
+for _fn, _p in (("get_successful_results", "R_SUCC"), ("get_failed_results", "R_FAIL"), ("get_canceled_results", "R_CANC")):
+    contract("ResultsSummary." + _fn, file=F, params=[("self", "Ref[ResultsSummary]")], returns="List[Ref[Result]]", fresh_result=True,
+             requires=["RS_WF(self)"], ensures=[_ONE_CLASS.format(P=_p), _UNTOUCHED])
